@@ -3,7 +3,7 @@
    thread's program point and the registers is the token discipline: for every kind k, priv k bounds the sum of
    `held k` over every duplicate-free list of threads (and equals it over a finite support list). *)
 From Coq Require Import ZArith Bool List Lia.
-From Verif Require Import Word Bits Conc Gen_consts Gen_fields Gen_group Gen_refcnt Refcnt.
+From Verif Require Import Word Bits Conc Gen_consts Gen_group Gen_refcnt Refcnt.
 Import ListNotations.
 Local Open Scope Z_scope.
 
@@ -64,7 +64,8 @@ Definition wfpc (p : pc) : Prop :=
   | PRet _ rx ri re => 0 <= rx /\ 0 <= ri /\ 0 <= re
   | PIRel _ n => 1 <= n
   | PIRetain b n => 1 <= n /\ wfb b
-  | PWeakLoad b | PWeakCas b _ _ | PEnter b | PEnterRetain b | PNfQ b | PNfPush b | PNfRetain b | PNfHead b
+  | PWeakCas b old new => wfb b /\ new = s32 (old + 1) /\ -1 < old
+  | PWeakLoad b | PEnter b | PEnterRetain b | PNfQ b | PNfPush b | PNfRetain b | PNfHead b
   | PNfLoad b | PNfCas b _ _ => wfb b
   | PSnapHead _ needs _ | PSnapStore _ needs _ | PSnapTail _ needs _ | PFire _ needs _ => 0 <= needs
   | PWakeFutex _ refs => 1 <= refs
@@ -84,7 +85,8 @@ Proof.
     repeat match goal with
            | b : bsrc |- _ => destruct b
            | c : kont |- _ => destruct c
-           end; destruct k; cbn [held hb hk one]; nia.
+           end; destruct k; cbn [held held0 hb hk one]; unfold wfb in *; try nia;
+    exfalso; intuition congruence.
 Qed.
 
 (* ------------------------------------------------------------------ bit facts about the group word *)
@@ -127,9 +129,11 @@ Proof.
 Qed.
 Lemma wf_weak_body b old p : wfb b -> weak_body b old = Some p -> wfpc p.
 Proof.
-  intros Wb. unfold weak_body. destruct (retain_weak_loop 0 old) as [new ret|ret xs| |]; try discriminate.
-  - intros H. injection H as <-. exact Wb.
-  - destruct ret as [|[|[| |]|]|]; try discriminate; intros H; injection H as <-; cbn; lia.
+  intros Wb. unfold weak_body, retain_weak_loop.
+  destruct (Z.eqb_spec old 2147483647) as [E1|E1]; cbn [negb]; [intros H; injection H as <-; cbn; lia|].
+  destruct (Z.eqb_spec old (-1)) as [E2|E2]; cbn [negb]; [intros H; injection H as <-; cbn; lia|].
+  destruct (Z.ltb_spec old (-1)) as [E3|E3]; cbn [negb]; intros H; injection H as <-; [exact I|].
+  cbn. split; [exact Wb|]. split; [reflexivity|lia].
 Qed.
 Lemma wf_call_pc e p : call_pc e = Some p -> wfpc p.
 Proof.
@@ -153,6 +157,7 @@ Proof.
     try (apply wf_wake_entry; lia); try (apply wf_wake_rel; lia);
     try (eapply wf_nf_body; eassumption); try (eapply wf_weak_body; eassumption).
   all: try (cbn; destruct W; auto; lia).
+  all: try (destruct W as (W1 & W2 & W3); eapply wf_weak_body; eassumption).
 Qed.
 
 Lemma wf_tstep p e p' : wfpc p -> tstep p e = Some p' -> wfpc p'.
@@ -188,7 +193,9 @@ Definition Greg (r : greg -> Z) (pv : kind -> Z) : Prop :=
   (r XDISP + pv KXD = 1 - r XALIVE /\ 0 <= r XDISP /\
    r DISP + pv KDP = 1 - Z.min 1 (r IREF + 1) /\ 0 <= r DISP /\ r FREED = r DISP) /\
   (r NFIN = (if (r DISP =? 1) && finset r then 1 else 0) /\ (r NFIN = 1 -> r FINCTX = r CTX /\ r FINQ = r TQ)) /\
-  (r CRASH = 0 /\ r XREF < MAXC /\ r IREF < MAXC).
+  (r CRASH = 0 /\ r XREF < MAXC /\ r IREF < MAXC) /\
+  (* whoever owes a retain is inside a call that borrowed a reference *)
+  pv KB = pv KX + pv KI - pv KPE - pv KPN.
 
 Definition hf (s : gst) (k : kind) : Z -> Z := fun t => held k (pcs s t) (gn s t).
 Definition Binv (s : gst) : Prop := forall k, bounded (hf s k) (priv s k).
@@ -198,8 +205,11 @@ Definition Inv (s : gst) : Prop := Greg (regs s) (priv s) /\ Binv s /\ Tinv s.
 Lemma Inv_init : Inv init_state.
 Proof.
   split; [|split].
-  - unfold Greg, init_state, init_regs, finset, MAXC, f_OS_OBJECT_GLOBAL_REFCNT; cbn. repeat split; try lia.
-  - intros k l ND. unfold hf, init_state; cbn. induction l; cbn; [lia|]. inversion ND; subst. auto.
+  - unfold Greg, init_state, init_regs, finset, MAXC, f_OS_OBJECT_GLOBAL_REFCNT; cbn. repeat split; try lia; intros; try lia; try discriminate.
+  - intros k l ND. unfold hf, init_state; cbn [pcs gn priv]. cbv beta.
+    induction l as [|a l IH]; cbn [sumf]; [lia|].
+    inversion ND as [|? ? ? ND']; subst. specialize (IH ND').
+    assert (E : held k PIdle 0 = 0) by (destruct k; reflexivity). rewrite E in *. lia.
   - intros t. cbn. split; [exact I|lia].
 Qed.
 
@@ -226,3 +236,460 @@ Ltac bool_hyps :=
          | H : (_ <=? _) = true |- _ => apply Z.leb_le in H
          | H : (_ <=? _) = false |- _ => apply Z.leb_gt in H
          end.
+
+Lemma Greg_same r pv pv' : (forall k, pv' k = pv k) -> Greg r pv -> Greg r pv'.
+Proof. intros H G. unfold Greg in *. rewrite !H. exact G. Qed.
+
+Lemma nf_body_cases b old p : nf_body b old = Some p ->
+  (exists new, p = PNfCas b old new) \/ (exists st, p = wake_entry (KApi b) st 0 /\ nz (Z.land st HN) = true).
+Proof.
+  unfold nf_body. destruct (group_notify_loop 0 0 0 old) as [new ret|ret xs| |]; try discriminate.
+  - intros H. injection H as <-. left. eauto.
+  - destruct ret as [|[| |]|]; try discriminate. intros H. injection H as <-. right.
+    exists (Z.lor old HN). split; [reflexivity|apply lor_HN_has_HN].
+Qed.
+Lemma weak_body_cases b old p : weak_body b old = Some p ->
+  p = PRet b 0 0 0 \/ (p = PCrash /\ old < -1) \/ (p = PWeakCas b old (s32 (old + 1)) /\ -1 < old).
+Proof.
+  unfold weak_body, retain_weak_loop.
+  destruct (Z.eqb_spec old 2147483647) as [E1|E1]; cbn [negb]; [intros H; injection H as <-; auto|].
+  destruct (Z.eqb_spec old (-1)) as [E2|E2]; cbn [negb]; [intros H; injection H as <-; auto|].
+  destruct (Z.ltb_spec old (-1)) as [E3|E3]; cbn [negb]; intros H; injection H as <-; [right; left; auto|].
+  right; right. split; [reflexivity|lia].
+Qed.
+Lemma hb_wf b : wfb b -> hb KX b + hb KI b = 1.
+Proof. destruct b; cbn; intros H; [reflexivity|reflexivity|exfalso; apply H; reflexivity]. Qed.
+
+Arguments hb k b : simpl nomatch.
+Ltac split_ifs H :=
+  repeat match type of H with
+         | context [if ?c then _ else _] => destruct c eqn:?; try discriminate H
+         end.
+Ltac simp_goal :=
+  cbn [is_crash apply_ups setr greg_id Z.eqb Pos.eqb held held0 hb hk one fst snd app b2z].
+Ltac spec_kinds HL :=
+  pose proof (HL KX); pose proof (HL KI); pose proof (HL KE); pose proof (HL KQ); pose proof (HL KPE);
+  pose proof (HL KPN); pose proof (HL KD); pose proof (HL KXD); pose proof (HL KDP); pose proof (HL KB).
+Lemma Greg_bounds r pv : Greg r pv -> (forall k, 0 <= pv k) ->
+  (-1 <= r XREF < 2147483647 /\ -1 <= r IREF < 2147483647) /\ pv KX <= r XREF + 1 /\ pv KI <= r IREF + 1.
+Proof.
+  unfold Greg, MAXC, f_OS_OBJECT_GLOBAL_REFCNT. intros G P.
+  pose proof (P KX); pose proof (P KI); pose proof (P KPE); pose proof (P KPN); pose proof (P KE); pose proof (P KD).
+  lia.
+Qed.
+Ltac s32_norm :=
+  repeat match goal with
+         | |- context [s32 ?x] => rewrite (s32_small x) by lia
+         | H : context [s32 ?x] |- _ => rewrite (s32_small x) in H by lia
+         end.
+Ltac conj_hyps := repeat match goal with H : _ /\ _ |- _ => destruct H end.
+Ltac b_facts :=
+  repeat match goal with b : bsrc |- _ =>
+    lazymatch goal with
+    | H : 0 <= hb KX b |- _ => fail
+    | _ => pose proof (hb_nonneg KX b); pose proof (hb_nonneg KI b)
+    end end;
+  repeat match goal with H : wfb ?b |- _ => apply hb_wf in H end.
+Ltac leave_facts :=
+  repeat match goal with H : leave_new ?x = ?x |- _ => apply leave_new_fix_no_HN in H end.
+Ltac prep :=
+  unfold Greg, finset, MAXC, f_OS_OBJECT_GLOBAL_REFCNT in *; conj_hyps; b_facts.
+Ltac finish :=
+  bool_hyps; leave_facts; try congruence; unfold sv in *;
+  repeat match goal with H : s32 (ea _) = _ |- _ => rewrite H in * end;
+  simp_goal; cbn [held held0 hb hk one b2z] in *; s32_norm;
+  repeat split; try lia.
+
+Lemma greg_step1 r pv p g e p' ups g' :
+  Greg r pv -> wfpc p -> 0 <= g -> (forall k, held k p g <= pv k) -> (forall k, 0 <= pv k) ->
+  tstep1 p e = Some p' -> effect1 r g p e = Some (ups, g') ->
+  Greg (if is_crash p' then setr (apply_ups ups r) CRASH 1 else apply_ups ups r)
+       (fun k => pv k + held k p' g' - held k p g) /\ 0 <= g'.
+Proof.
+  intros HG HW Hg HL HP Hts Hef.
+  pose proof (Greg_bounds r pv HG HP) as BD.
+  spec_kinds HL. spec_kinds HP. clear HL HP.
+  destruct p; cbn [tstep1 effect1 wfpc] in *; try discriminate.
+  all: unfold guard, after_irel, lv_entry, wake_entry, wake_tail, wake_rel, end_pc in *.
+  all: repeat match goal with c : kont |- _ => destruct c end.
+  all: prep.
+  all: try (split_ifs Hts; split_ifs Hef; try discriminate; injection Hts as <-; injection Hef as <- <-; finish).
+  (* _dispatch_dispose: the finalizer bookkeeping *)
+  all: try (match goal with |- context [?r0 DISP + 1 =? 1] => assert (D0 : r0 DISP = 0) by lia end; rewrite D0 in *; cbn [Z.add Pos.add Z.eqb Pos.eqb andb] in *;
+            repeat match goal with
+                   | H : nz _ = _ |- _ => rewrite H in *
+                   | H : (nz _ && nz _) = _ |- _ => rewrite H in *
+                   end; cbn [andb] in *; lia).
+  - (* PWeakLoad *)
+    destruct (at_ e OBJ_G OFF_XREF DV_LOAD (mo_code retain_weak_loop_order)); [|discriminate].
+    split_ifs Hef. injection Hef as <- <-.
+    apply weak_body_cases in Hts as [->|[[-> Hlt]|[-> Hgt]]]; finish.
+  - (* PWeakCas *)
+    destruct (at_ e OBJ_G OFF_XREF DV_CASW (mo_code retain_weak_loop_order) && (s32 (eb e) =? new)) eqn:Hc; [|discriminate].
+    split_ifs Hef; injection Hef as <- <-.
+    + injection Hts as <-. finish.
+    + apply weak_body_cases in Hts as [->|[[-> Hlt]|[-> Hgt]]]; finish.
+  - (* PNfLoad *)
+    destruct (at_ e OBJ_G OFF_STATE DV_LOAD MO_RELAXED); [|discriminate]. injection Hef as <- <-.
+    apply nf_body_cases in Hts as [[new ->]|(st & -> & Hst)].
+    + finish.
+    + unfold wake_entry. rewrite Hst. finish.
+  - (* PNfCas *)
+    destruct (at_ e OBJ_G OFF_STATE DV_CASW (mo_code group_notify_loop_order) && (eb e =? new)); [|discriminate].
+    split_ifs Hef; injection Hef as <- <-.
+    + injection Hts as <-. finish.
+    + apply nf_body_cases in Hts as [[new' ->]|(st & -> & Hst)].
+      * finish.
+      * unfold wake_entry. rewrite Hst. finish.
+Qed.
+
+Lemma held_fire_exit k c needs hw : 0 <= needs -> held k (PFire c needs hw) 0 = held k (wake_tail c (needs + 1) hw) 0.
+Proof.
+  intros H. unfold wake_tail, wake_rel. destruct hw.
+  - destruct k; cbn [held held0 one]; lia.
+  - destruct (Z.eqb_spec (needs + 1) 0); [lia|]. destruct k; cbn [held held0 one]; lia.
+Qed.
+
+Ltac disp0 :=
+  match goal with |- context [?r0 DISP =? 1] =>
+    let D := fresh "D0" in assert (D : r0 DISP = 0) by lia; rewrite D in * end;
+  cbn [Z.eqb andb] in *; try lia.
+
+Lemma call_cases e p : call_pc e = Some p ->
+  let op := ea e mod 100 in let b := borrow_of e in
+  wfb b /\
+  ((op = 1 /\ p = PRetain) \/ (op = 2 /\ p = PRelease) \/ (op = 4 /\ p = PLeave (KApi BN)) \/
+   (op = 10 /\ p = PIRel (KApi BN) (eb e) /\ (eb e = 1 \/ eb e = 2)) \/
+   (op = 3 /\ p = PEnter b) \/ (op = 5 /\ p = PNfQ b) \/ ((op = 6 \/ op = 7 \/ op = 8) /\ p = PRet b 0 0 0) \/
+   (op = 9 /\ p = PIRetain b (eb e) /\ (eb e = 1 \/ eb e = 2)) \/ (op = 11 /\ p = PWeakLoad b)).
+Proof.
+  unfold call_pc, borrow_of, OP_RETAIN, OP_RELEASE, OP_ENTER, OP_LEAVE, OP_NOTIFY, OP_SETCTX, OP_SETFIN, OP_SETTQ,
+    OP_IRETAIN, OP_IRELEASE, OP_WEAK. intros H. cbv zeta.
+  split; [destruct (ea e / 100 =? 0); discriminate|].
+  destruct ((ea e <? 0) || (200 <=? ea e)); [discriminate|].
+  destruct (Z.eqb_spec (ea e mod 100) 1) as [E|_]; [destruct (ea e / 100 =? 0); [|discriminate]; injection H as <-; auto|].
+  destruct (Z.eqb_spec (ea e mod 100) 2) as [E|_]; [destruct (ea e / 100 =? 0); [|discriminate]; injection H as <-; auto|].
+  destruct (Z.eqb_spec (ea e mod 100) 4) as [E|_]; [destruct (ea e / 100 =? 0); [|discriminate]; injection H as <-; auto|].
+  destruct (Z.eqb_spec (ea e mod 100) 10) as [E|_].
+  { destruct ((ea e / 100 =? 0) && ((eb e =? 1) || (eb e =? 2))) eqn:C; [|discriminate]. injection H as <-.
+    right; right; right; left. bool_hyps. destruct H0; bool_hyps; auto. }
+  destruct (Z.eqb_spec (ea e mod 100) 3) as [E|_]; [injection H as <-; auto 10|].
+  destruct (Z.eqb_spec (ea e mod 100) 5) as [E|_]; [injection H as <-; auto 10|].
+  destruct ((ea e mod 100 =? 6) || (ea e mod 100 =? 7) || (ea e mod 100 =? 8)) eqn:C.
+  { injection H as <-. do 6 right; left. split; [|reflexivity]. bool_hyps. destruct C as [C|C]; bool_hyps; auto.
+    destruct C; bool_hyps; auto. }
+  destruct (Z.eqb_spec (ea e mod 100) 9) as [E|_].
+  { destruct ((eb e =? 1) || (eb e =? 2)) eqn:C2; [|discriminate]. injection H as <-. do 7 right; left.
+    bool_hyps. destruct C2; bool_hyps; auto. }
+  destruct (Z.eqb_spec (ea e mod 100) 11) as [E|_]; [injection H as <-; auto 12|discriminate].
+Qed.
+
+
+Ltac call_case Hef Eop :=
+  subst; unfold guard, OP_SETCTX, OP_SETFIN, OP_SETTQ in Hef; rewrite Eop in Hef;
+  cbn [held held0 hb hk one Z.eqb Pos.eqb app] in Hef; split_ifs Hef; injection Hef as <- <-;
+  prep; finish; try disp0;
+  try (exfalso; match goal with H : ?r0 NFIN = (if (?r0 DISP =? 1) && _ then 1 else 0) |- _ =>
+         let D := fresh "D0" in assert (D : r0 DISP = 0) by lia; rewrite D in H; cbn [Z.eqb andb] in H; lia end).
+
+Lemma greg_step s t e s' : Inv s -> gstep s t e = Some s' -> Greg (regs s') (priv s') /\ 0 <= gn s' t.
+Proof.
+  intros (HG & HB & HT) Hs. unfold gstep in Hs.
+  destruct (tstep (pcs s t) e) as [p'|] eqn:Hts; [|discriminate].
+  destruct (effect (regs s) (gn s t) (pcs s t) e) as [[ups g']|] eqn:Hef; [|discriminate].
+  injection Hs as <-. cbn [regs priv gn]. rewrite upd_same.
+  pose proof (fun k => held_le s t k HB) as HL. pose proof (fun k => priv_nonneg s k HB) as HP.
+  destruct (HT t) as [HW Hg].
+  unfold tstep, effect in *.
+  destruct (noise e).
+  { (* events of other code: nothing changes *)
+    injection Hef as <- <-.
+    assert (p' = pcs s t) as -> by (destruct (pcs s t); try discriminate; injection Hts as <-; reflexivity).
+    split; [|exact Hg]. cbn [apply_ups].
+    assert (is_crash (pcs s t) = false) as -> by (destruct (pcs s t); try discriminate; reflexivity).
+    apply (Greg_same _ (priv s)); [intros k; lia|exact HG]. }
+  set (r := regs s) in *. set (pv := priv s) in *. set (g := gn s t) in *. clearbody r pv g. clear HB HT.
+  destruct (pcs s t) eqn:Hpc; try (apply (greg_step1 _ _ _ _ e); assumption); clear Hpc.
+  - (* PIdle *)
+    destruct (ev_kind e DVU_CALL).
+    + (* an API call takes its tokens out of the pools *)
+      rewrite Hts in Hef. apply call_cases in Hts as (Wb & Hc). cbv zeta in Hc.
+      set (b := borrow_of e) in *. clearbody b. spec_kinds HP; clear HL HP.
+      destruct Hc as [(Eop & ->)|[(Eop & ->)|[(Eop & ->)|[(Eop & -> & Hn)|[(Eop & ->)|[(Eop & ->)|[(Eop & ->)|[(Eop & -> & Hn)|(Eop & ->)]]]]]]]].
+      * call_case Hef Eop.
+      * call_case Hef Eop.
+      * call_case Hef Eop.
+      * destruct Hn as [Hn|Hn]; rewrite Hn in *; call_case Hef Eop.
+      * call_case Hef Eop.
+      * call_case Hef Eop.
+      * destruct Eop as [Eop|[Eop|Eop]]; call_case Hef Eop.
+      * destruct Hn as [Hn|Hn]; rewrite Hn in *; call_case Hef Eop.
+      * call_case Hef Eop.
+    + (* library-internal leave on a worker thread *)
+      spec_kinds HP; clear HL HP.
+      cbn [tstep1 effect1] in *. unfold guard, lv_entry, wake_entry, wake_tail, wake_rel, end_pc in *.
+      prep. split_ifs Hts; split_ifs Hef; try discriminate; injection Hts as <-; injection Hef as <- <-; finish.
+  - (* PRet: the call's tokens go (back) to the pools *)
+    spec_kinds HL. spec_kinds HP. clear HL HP. cbn [tstep1 wfpc] in Hts, HW. split_ifs Hts. injection Hts as <-. injection Hef as <- <-.
+    prep. finish.
+  - (* PFire *)
+    destruct (is_qrel e).
+    + injection Hts as <-. spec_kinds HL. spec_kinds HP. clear HL HP. unfold guard in Hef. split_ifs Hef.
+      injection Hef as <- <-. prep. finish.
+    + destruct (Z.eqb_spec g 0) as [E0|]; [|discriminate]. subst g. cbn [wfpc] in HW.
+      assert (W2 : wfpc (wake_tail k (needs + 1) hw)) by (apply wf_wake_tail; lia).
+      assert (HL2 : forall k0, held k0 (wake_tail k (needs + 1) hw) 0 <= pv k0)
+        by (intros k0; rewrite <- held_fire_exit by exact HW; apply HL).
+      destruct (greg_step1 r pv (wake_tail k (needs + 1) hw) 0 e p' ups g' HG W2 Hg HL2 HP Hts Hef) as [G1 G2].
+      split; [|exact G2]. eapply Greg_same; [|exact G1]. intros k0. cbv beta.
+      rewrite held_fire_exit by exact HW. reflexivity.
+Qed.
+
+(* ------------------------------------------------------------------ the invariant is inductive *)
+Lemma inv_step s t e s' : Inv s -> gstep s t e = Some s' -> Inv s'.
+Proof.
+  intros HI Hs. destruct (greg_step s t e s' HI Hs) as [G' Hg']. destruct HI as (HG & HB & HT).
+  unfold gstep in Hs. destruct (tstep (pcs s t) e) as [p'|] eqn:Hts; [|discriminate].
+  destruct (effect (regs s) (gn s t) (pcs s t) e) as [[ups g']|] eqn:Hef; [|discriminate].
+  injection Hs as <-. cbn [regs priv pcs gn] in *. rewrite upd_same in Hg'.
+  assert (Wp' : wfpc p') by (eapply wf_tstep; [apply HT|exact Hts]).
+  split; [exact G'|]. split.
+  - intros k. unfold hf. cbn [priv pcs gn].
+    set (f := fun u => held k (pcs s u) (gn s u)).
+    set (f' := fun u => held k (upd (pcs s) t p' u) (upd (gn s) t g' u)).
+    assert (Ft : f' t = held k p' g') by (unfold f'; rewrite !upd_same; reflexivity).
+    replace (priv s k + held k p' g' - held k (pcs s t) (gn s t)) with (priv s k + f' t - f t)
+      by (rewrite Ft; reflexivity).
+    apply bounded_step.
+    + intros u. unfold f. apply held_nonneg; apply HT.
+    + rewrite Ft. apply held_nonneg; assumption.
+    + apply HB.
+    + intros u Ne. unfold f', f. rewrite !upd_other by exact Ne. reflexivity.
+  - intros u. cbn [pcs gn]. destruct (Z.eq_dec u t) as [->|Ne].
+    + rewrite !upd_same. split; assumption.
+    + rewrite !upd_other by exact Ne. apply HT.
+Qed.
+
+Lemma reach_inv s : reach s -> Inv s.
+Proof.
+  apply invariant_lift.
+  - intros s0 ->. apply Inv_init.
+  - intros s0 [t e] s1 HI Hst. exact (inv_step s0 t e s1 HI Hst).
+Qed.
+
+
+(* ------------------------------------------------------------------ finite support: priv is exactly the sum *)
+Lemma gstep_shape s t e s' : gstep s t e = Some s' ->
+  exists p' g', tstep (pcs s t) e = Some p' /\ pcs s' = upd (pcs s) t p' /\ gn s' = upd (gn s) t g' /\
+    forall k, priv s' k = priv s k + held k p' g' - held k (pcs s t) (gn s t).
+Proof.
+  unfold gstep. destruct (tstep (pcs s t) e) as [p'|]; [|discriminate].
+  destruct (effect (regs s) (gn s t) (pcs s t) e) as [[ups g']|]; [|discriminate].
+  intros H. injection H as <-. exists p', g'. cbn. auto.
+Qed.
+
+Definition Sinv (s : gst) : Prop :=
+  exists l, NoDup l /\ (forall t, ~ In t l -> pcs s t = PIdle) /\ forall k, priv s k = sumf (hf s k) l.
+
+Lemma held_idle k g : held k PIdle g = 0.
+Proof. destruct k; reflexivity. Qed.
+
+Lemma sinv_step s t e s' : Sinv s -> gstep s t e = Some s' -> Sinv s'.
+Proof.
+  intros (l & ND & Hout & Hsum) Hs. destruct (gstep_shape s t e s' Hs) as (p' & g' & _ & Hp & Hg & Hpv).
+  assert (Hoth : forall k u, u <> t -> hf s' k u = hf s k u).
+  { intros k u Ne. unfold hf. rewrite Hp, Hg, !upd_other by exact Ne. reflexivity. }
+  assert (Hme : forall k, hf s' k t = held k p' g').
+  { intros k. unfold hf. rewrite Hp, Hg, !upd_same. reflexivity. }
+  destruct (in_dec Z.eq_dec t l) as [Hin|Hn].
+  - exists l. split; [exact ND|]. split.
+    + intros u Hu. rewrite Hp, upd_other; [apply Hout; exact Hu|]. intros ->. contradiction.
+    + intros k. rewrite (sumf_in (hf s k) (hf s' k) l t ND Hin (Hoth k)). rewrite Hpv, Hsum, Hme. unfold hf at 3. lia.
+  - exists (t :: l). split; [constructor; assumption|]. split.
+    + intros u Hu. rewrite Hp, upd_other; [apply Hout|]; intros X; apply Hu; [right; exact X|left; symmetry; exact X].
+    + intros k. cbn [sumf]. rewrite (sumf_notin (hf s k) (hf s' k) l t Hn (Hoth k)). rewrite Hpv, Hsum, Hme.
+      rewrite (Hout t Hn), held_idle. lia.
+Qed.
+
+Lemma reach_sinv s : reach s -> Sinv s.
+Proof.
+  apply invariant_lift.
+  - intros s0 ->. exists []. split; [constructor|]. split; [intros; reflexivity|]. intros k. reflexivity.
+  - intros s0 [t e] s1 HI Hst. exact (sinv_step s0 t e s1 HI Hst).
+Qed.
+
+(* if no thread holds a token of kind k, none is held by a call in progress *)
+Lemma priv_zero s k : Sinv s -> Tinv s -> (forall t, held k (pcs s t) (gn s t) = 0) -> priv s k = 0.
+Proof.
+  intros (l & _ & _ & Hsum) _ H. rewrite Hsum. clear Hsum. induction l as [|a l IH]; cbn [sumf]; [reflexivity|].
+  unfold hf at 1. rewrite H. lia.
+Qed.
+(* and conversely a token counted in priv 0 is held by nobody *)
+Lemma held_zero s k t : Binv s -> Tinv s -> priv s k = 0 -> held k (pcs s t) (gn s t) = 0.
+Proof.
+  intros HB HT H0. pose proof (held_le s t k HB). pose proof (held_nonneg k (pcs s t) (gn s t) (proj1 (HT t)) (proj2 (HT t))). lia.
+Qed.
+
+(* ------------------------------------------------------------------ no crash path is ever taken *)
+Lemma no_crash_step s t e s' : reach s -> gstep s t e = Some s' -> pcs s' t <> PCrash.
+Proof.
+  intros R Hs E.
+  assert (R' : reach s') by (eapply reach_step; [exact R|exact (Hs : step s (t, e) s')]).
+  pose proof (reach_inv s' R') as (G' & _ & _).
+  assert (C0 : regs s' CRASH = 0) by (unfold Greg in G'; tauto).
+  unfold gstep in Hs. destruct (tstep (pcs s t) e) as [p'|]; [|discriminate].
+  destruct (effect (regs s) (gn s t) (pcs s t) e) as [[ups g']|]; [|discriminate].
+  injection Hs as <-. cbn [pcs regs] in *. rewrite upd_same in E. subst p'. cbn [is_crash setr greg_id Z.eqb Pos.eqb] in C0.
+  discriminate.
+Qed.
+
+Lemma no_thread_crashed s : reach s -> forall t, pcs s t <> PCrash.
+Proof.
+  induction 1 as [s0 E0|s0 [u e] s1 R IH Hst]; intros t.
+  - subst. cbn. discriminate.
+  - destruct (Z.eq_dec t u) as [->|Ne].
+    + exact (no_crash_step s0 u e s1 R Hst).
+    + destruct (gstep_shape s0 u e s1 Hst) as (p' & g' & _ & Hp & _). rewrite Hp, upd_other by exact Ne. apply IH.
+Qed.
+
+(* ------------------------------------------------------------------ the theorems *)
+Lemma held_all_zero p g : wfpc p -> 0 <= g ->
+  held KX p g = 0 -> held KI p g = 0 -> held KE p g = 0 -> held KDP p g = 0 -> held KD p g = 0 ->
+  forall k, held k p g = 0.
+Proof.
+  intros W G HX HI HE HDP HD k.
+  destruct p; cbn [wfpc] in W; cbn [held held0 hk one] in *;
+    repeat match goal with c : kont |- _ => destruct c end; cbn [hk] in *;
+    repeat match goal with H : _ /\ _ |- _ => destruct H end; b_facts;
+    destruct k; cbn [held held0 hb hk one]; try lia.
+  all: try (destruct b; cbn [hb] in *; lia).
+Qed.
+
+Theorem counters_never_below_minus1 s : reach s ->
+  -1 <= regs s XREF /\ -1 <= regs s IREF /\ regs s CRASH = 0 /\ forall t, pcs s t <> PCrash.
+Proof.
+  intros R. pose proof (reach_inv s R) as (G & B & T).
+  pose proof (Greg_bounds _ _ G (fun k => priv_nonneg s k B)) as ((X & I) & _).
+  repeat split; try lia; [unfold Greg in G; tauto|apply no_thread_crashed; exact R].
+Qed.
+
+Definition nonempty (x : Z) : Z := if 0 <? x then 1 else 0.
+
+Theorem refs_account s : reach s ->
+  let r := regs s in
+  r IREF + 1 = r XALIVE + r IPOOL + (nonempty (r GVAL) - priv s KPE) + (r NTAIL - priv s KPN) + priv s KI /\
+  r XREF + 1 = r XPOOL + priv s KX /\
+  r GVAL = r EPOOL + priv s KE + priv s KPE /\
+  0 <= priv s KPE <= nonempty (r GVAL) /\ 0 <= priv s KPN <= r NTAIL /\ r NTAIL <= 1 /\ 0 <= r XALIVE <= 1 /\
+  0 <= r IPOOL /\ 0 <= r XPOOL /\ 0 <= r EPOOL /\ 0 <= priv s KI /\ 0 <= priv s KX /\ 0 <= priv s KE /\
+  r QRET - r QREL = r NLEN + priv s KQ /\ r TRET - r TREL = 1 - r DISP.
+Proof.
+  intros R r. pose proof (reach_inv s R) as (G & B & T). subst r.
+  pose proof (priv_nonneg s KPE B); pose proof (priv_nonneg s KPN B); pose proof (priv_nonneg s KI B);
+  pose proof (priv_nonneg s KX B); pose proof (priv_nonneg s KE B); pose proof (priv_nonneg s KD B).
+  unfold Greg in G. unfold nonempty. destruct (Z.ltb_spec 0 (regs s GVAL)); repeat split; lia.
+Qed.
+
+(* quiescent form: no call in progress *)
+Corollary refs_account_quiescent s : reach s -> (forall t, pcs s t = PIdle) ->
+  let r := regs s in
+  r IREF + 1 = r XALIVE + r IPOOL + nonempty (r GVAL) + r NTAIL /\ r XREF + 1 = r XPOOL /\ r GVAL = r EPOOL.
+Proof.
+  intros R Q r. pose proof (reach_inv s R) as (G & B & T). pose proof (reach_sinv s R) as S.
+  assert (Z0 : forall k, priv s k = 0).
+  { intros k. apply priv_zero; [exact S|exact T|]. intros t. rewrite Q. apply held_idle. }
+  pose proof (refs_account s R) as A. cbv zeta in A. rewrite !Z0 in A. subst r. lia.
+Qed.
+
+Theorem no_dispose_while_held s : reach s -> regs s DISP <> 0 ->
+  let r := regs s in
+  r XPOOL = 0 /\ r IPOOL = 0 /\ r EPOOL = 0 /\ r GVAL = 0 /\ r NTAIL = 0 /\ r NLEN = 0 /\
+  (forall k, priv s k = 0) /\ (forall t k, held k (pcs s t) (gn s t) = 0).
+Proof.
+  intros R D r. pose proof (reach_inv s R) as (G & B & T). pose proof (reach_sinv s R) as S. subst r.
+  pose proof (priv_nonneg s KPE B); pose proof (priv_nonneg s KPN B); pose proof (priv_nonneg s KI B);
+  pose proof (priv_nonneg s KX B); pose proof (priv_nonneg s KE B); pose proof (priv_nonneg s KD B);
+  pose proof (priv_nonneg s KDP B); pose proof (priv_nonneg s KB B).
+  unfold Greg, MAXC, f_OS_OBJECT_GLOBAL_REFCNT in G.
+  assert (P0 : priv s KX = 0 /\ priv s KI = 0 /\ priv s KE = 0 /\ priv s KDP = 0 /\ priv s KD = 0) by lia.
+  destruct P0 as (PX & PI & PE & PDP & PD).
+  assert (HZ : forall t k, held k (pcs s t) (gn s t) = 0).
+  { intros t. apply held_all_zero; try apply T; apply held_zero; assumption. }
+  assert (PZ : forall k, priv s k = 0).
+  { intros k. apply priv_zero; [exact S|exact T|]. intros t. apply HZ. }
+  repeat split; try lia; assumption.
+Qed.
+
+Theorem dispose_at_most_once s : reach s ->
+  let r := regs s in
+  0 <= r DISP <= 1 /\ 0 <= r XDISP <= 1 /\ r FREED = r DISP /\ (r DISP = 1 -> r XDISP = 1 /\ r XALIVE = 0) /\
+  (r XALIVE = 1 -> r XDISP = 0) /\ (0 <= r IREF -> r DISP = 0).
+Proof.
+  intros R r. pose proof (reach_inv s R) as (G & B & T). subst r.
+  pose proof (priv_nonneg s KDP B); pose proof (priv_nonneg s KXD B); pose proof (priv_nonneg s KX B).
+  pose proof (Greg_bounds _ _ G (fun k => priv_nonneg s k B)) as ((BX & BI) & _).
+  assert (D1 : regs s DISP = 1 -> priv s KXD = 0 /\ regs s XPOOL = 0 /\ priv s KX = 0).
+  { intros D. assert (regs s DISP <> 0) as Dn by lia. pose proof (no_dispose_while_held s R Dn) as Hn. cbv zeta in Hn.
+    destruct Hn as (X0 & _ & _ & _ & _ & _ & PZ & _). split; [apply PZ|split; [exact X0|apply PZ]]. }
+  unfold Greg, MAXC, f_OS_OBJECT_GLOBAL_REFCNT in G.
+  split; [lia|]. split; [lia|]. split; [lia|]. split; [|split; intros; lia].
+  intros HD. destruct (D1 HD) as (? & ? & ?). lia.
+Qed.
+
+Theorem finalizer_exactly_once s : reach s ->
+  let r := regs s in
+  r NFIN = (if (r DISP =? 1) && nz (r FIN) && nz (r CTX) then 1 else 0) /\
+  (r NFIN = 1 -> r FINCTX = r CTX /\ r FINQ = r TQ).
+Proof.
+  intros R r. pose proof (reach_inv s R) as (G & _ & _). subst r. unfold Greg, finset in G.
+  rewrite <- andb_assoc. tauto.
+Qed.
+
+(* after the last reference is dropped and pending work has finished, the memory has been released *)
+Theorem released_when_unreferenced s : reach s -> (forall t, pcs s t = PIdle) ->
+  regs s XPOOL = 0 -> regs s IPOOL = 0 -> regs s EPOOL = 0 -> regs s NTAIL = 0 ->
+  regs s DISP = 1 /\ regs s FREED = 1 /\ regs s XDISP = 1.
+Proof.
+  intros R Q X0 I0 E0 N0. pose proof (refs_account_quiescent s R Q) as A. cbv zeta in A.
+  pose proof (reach_inv s R) as (G & B & T). pose proof (reach_sinv s R) as S.
+  assert (Z0 : forall k, priv s k = 0).
+  { intros k. apply priv_zero; [exact S|exact T|]. intros t. rewrite Q. apply held_idle. }
+  unfold Greg, MAXC, f_OS_OBJECT_GLOBAL_REFCNT in G. rewrite !Z0 in G. unfold nonempty in A.
+  destruct (Z.ltb_spec 0 (regs s GVAL)); lia.
+Qed.
+
+(* memory safety: every access to the object's words happens before the memory is released *)
+Definition is_access (e : event) : bool :=
+  (eobj e =? OBJ_G) && negb (ev_kind e DVU_CALL) && negb (ev_kind e DVU_RET) && negb (noise e).
+
+Theorem access_not_freed s t e s' : reach s -> gstep s t e = Some s' -> is_access e = true -> regs s FREED = 0.
+Proof.
+  intros R Hs Ha. pose proof (reach_inv s R) as (G & B & T).
+  destruct (Z.eq_dec (regs s DISP) 0) as [D0|Dn]; [unfold Greg in G; lia|exfalso].
+  pose proof (no_dispose_while_held s R Dn) as Hn. cbv zeta in Hn. destruct Hn as (_ & _ & E0 & _ & _ & _ & _ & HZ).
+  specialize (HZ t). destruct (T t) as [W Hg].
+  unfold is_access in Ha. apply andb_true_iff in Ha as [Ha Hno]. apply andb_true_iff in Ha as [Ha Hnr].
+  apply andb_true_iff in Ha as [_ Hnc]. apply negb_true_iff in Hno, Hnr, Hnc.
+  unfold gstep in Hs. destruct (tstep (pcs s t) e) as [p'|] eqn:Hts; [|discriminate].
+  destruct (effect (regs s) (gn s t) (pcs s t) e) as [[ups g']|] eqn:Hef; [|discriminate]. clear Hs.
+  unfold tstep, effect in *. rewrite Hno in *.
+  pose proof (HZ KX) as ZX. pose proof (HZ KI) as ZI. pose proof (HZ KE) as ZE. pose proof (HZ KDP) as ZDP. pose proof (HZ KD) as ZD.
+  destruct (pcs s t); cbn [wfpc] in W; cbn [held held0 hk one] in ZX, ZI, ZE, ZDP, ZD;
+    repeat match goal with c : kont |- _ => destruct c end; cbn [hk hb] in *;
+    repeat match goal with H : _ /\ _ |- _ => destruct H end; b_facts; try lia.
+  all: try discriminate.
+  all: try (cbn [tstep1] in Hts; rewrite Hnr in Hts; discriminate).
+  (* PIdle: only a library-internal leave could touch the object, and it needs an outstanding enter *)
+  all: rewrite Hnc in *; destruct (effect1 (regs s) (gn s t) (PLeave KImpl) e) as [[u1 g1]|]; [|discriminate];
+    unfold guard in Hef; destruct (Z.leb_spec 1 (regs s EPOOL)); [lia|discriminate].
+Qed.
+
+Theorem gstep_tstep s t e s' : gstep s t e = Some s' -> tstep (pcs s t) e = Some (pcs s' t).
+Proof. intros H. destruct (gstep_shape s t e s' H) as (p' & g' & Ht & Hp & _). rewrite Hp, upd_same. exact Ht. Qed.
+
+Lemma grun_reach tr : forall s s', reach s -> grun s tr = Some s' -> reach s'.
+Proof.
+  induction tr as [|[t e] tr IH]; cbn; intros s s' R H; [injection H as <-; exact R|].
+  destruct (gstep s t e) as [s1|] eqn:E; [|discriminate]. apply (IH s1 s'); [|exact H].
+  eapply reach_step; [exact R|exact (E : step s (t, e) s1)].
+Qed.
